@@ -34,7 +34,7 @@ Property clause → theorem  (model: `Comdex/Model/Liquidation.lean`, both gener
       `C09.v1_selloff_records` and — FALSE for the transfers — `C09.v1_selloff_can_exceed_collateral_counterexample` (D33).
 * generation-1 borrows end to end (sweep `LiquidateBorrows`, message `MsgLiquidateBorrow`, sell-off, auction start)
     → `C09.v1_borrow_safe_never_seized` (sweep: safe or kill-switched borrows keep their record; message: w.r.t. its OWN test; the two
-      tests coincide outside e-mode), FALSE for e-mode pairs under the message: `C09.v1_msg_borrow_ignores_emode_counterexample` (D35,
+      tests coincide outside e-mode), FALSE for e-mode pairs under the message: `C09.v1_msg_borrow_ignores_emode_counterexample` (D38,
       replayed on the real code), `C09.v1_borrow_seizure_effect` (exactly one locked vault and one lend auction, amounts, custody).
 * "opens exactly one auction for it", for every auction type the whitelisting can select, and nothing seized when none is
     → `C09.auction_type_follows_whitelisting`; the messages that seize nobody: `C09.external_liquidation_touches_no_position`;
@@ -603,7 +603,7 @@ def emodeWorld : World :=
 `LiquidationThreshold`; the sweep, liquidate_borrow.go:82-85, uses `ELiquidationThreshold`): ratio 0.82 ≤ e-mode threshold 0.85,
 the block hook leaves the borrow alone (only its offset moves), anybody's message flags it, sells 40 000 000 + bonus units of
 its collateral off and opens an auction. Replayed on the real code by `c09WitnessEmodeMsgV1` (monitor
-`gen1_msg_borrow_ignores_emode`, finding D35). -/
+`gen1_msg_borrow_ignores_emode`, finding D38). -/
 theorem v1_msg_borrow_ignores_emode_counterexample :
     borrowUnsafe emodeEnv (emodeWorld.borrows.getD 0 default) = false ∧
     (blockV1 emodeEnv 5 emodeWorld).world? = some { emodeWorld with offsets := [(3, 1)] } ∧
